@@ -53,7 +53,8 @@ def run_connection(spec, fates, default=None, overs=(), lifetime=True, label="",
         # "always terminates", observed: a call needs about 3 select() calls per transmission and one per datagram
         # read (measured maximum on the unchanged tree: see evidence, max_selects_per_call); the bound is over 10 times that
         max_selects = 200 + 40 * max(b["n"] for b in spec["bursts"]) * spec["tries"]
-    net = VirtualNet(Codec, fates=fates, default=default, overs=overs, lifetime=lifetime, max_selects=max_selects)
+    net = VirtualNet(Codec, fates=fates, default=default, overs=overs, lifetime=lifetime, max_selects=max_selects,
+                     seqmod=spec["seqmod"])
     ev = net.events
     net.install(scp_connection)
     try:
